@@ -170,11 +170,18 @@ func (ix *Index) indexReadyBlobs(ctx context.Context) {
 func (ix *Index) noteBlobIndexedLocked(br blob.Ref) {
 	for _, needer := range ix.neededBy[br] {
 		newNeeds := blobsFilteringOut(ix.needs[needer], br)
-		if len(newNeeds) > 0 {
-			// The dependency is satisfied: forget the persisted edge too, or after
-			// a restart needer would wait for br forever. The last edge of needer
-			// stays until needer itself is committed (removeAllMissingEdges): if
-			// the process dies before that, the edge is all that remembers needer.
+		// The dependency is satisfied: forget the persisted edge too, or after
+		// a restart needer would wait for br forever. The last edge of needer
+		// stays until needer itself is committed (removeAllMissingEdges): if
+		// the process dies before that, the edge is all that remembers needer.
+		// Unless needer is already indexed (a second upload of it raced with
+		// br): then nothing will commit it again and the edge would stay for ever.
+		keepLast := false
+		if len(newNeeds) == 0 {
+			v, err := ix.s.Get("have:" + needer.String())
+			keepLast = !(err == nil && strings.HasSuffix(v, "|indexed"))
+		}
+		if !keepLast {
 			if err := ix.s.Delete(keyMissing.Key(needer, br)); err != nil {
 				log.Printf("Error deleting key %s: %v", keyMissing.Key(needer, br), err)
 			}
